@@ -16,7 +16,7 @@
 (***************************************************************************)
 EXTENDS Naturals, Sequences, FiniteSets, TLC, Json, IOUtils
 
-CONSTANTS MaxNodes, MaxDirs, MaxAlias, MaxArgs, Root
+CONSTANTS MaxNodes, MaxDirs, MaxAlias, MaxArgs, MaxDecor, Root
 TS == JsonDeserialize(IOEnv.SCHEMA)
 VARIABLES doc, open, ndir, nalias, nargs
 vars == <<doc, open, ndir, nalias, nargs>>
@@ -37,7 +37,8 @@ GenFields(t) == IF Kind(t) \in {"OBJECT", "INTERFACE"} THEN {f \in DOMAIN TS.typ
 Conds(t) == {c \in Types : Composite(c) /\ Possible(c) \cap Possible(t) # {} /\ c # Root}
 
 \* directive codes for fields (code, number of directives) and for fragments
-FieldDirs == {<<"", 0>>, <<"s", 1>>, <<"S", 1>>, <<"t", 1>>, <<"si", 2>>, <<"tt", 2>>, <<"stt", 3>>, <<"tttt", 4>>}
+\* (the driver replaces a code by a seeded composition of the same number of directives)
+FieldDirs == {<<"", 0>>, <<"s", 1>>, <<"St", 2>>, <<"ttt", 3>>}
 FragDirs  == {<<"", 0>>, <<"s", 1>>}
 ArgCodes  == {"", "0", "1", "4", "$c"}
 
@@ -48,28 +49,32 @@ Node(k, name, alias, on, dr, ar, ref) ==
 
 Init == doc = <<>> /\ open = <<[type |-> Root, count |-> 0, node |-> 0]>> /\ ndir = 0 /\ nalias = 0 /\ nargs = 0
 
-AliasChoice == IF nalias < MaxAlias THEN {"", "x"} ELSE {""}
+\* ndir counts the nodes that carry directives; at most MaxDecor decorations (directive codes, aliases, arguments) per document
+Decor == ndir + nalias + nargs
+AliasChoice == IF nalias < MaxAlias /\ Decor < MaxDecor THEN {"", "x"} ELSE {""}
+DirChoice(S) == IF ndir < MaxDirs /\ Decor < MaxDecor THEN S ELSE {<<"", 0>>}
 HasArgs(t, f) == f # "__typename" /\ Len(TS.types[t].fields[f].args) > 0
-ArgChoice(t, f) == IF HasArgs(t, f) /\ nargs < MaxArgs THEN ArgCodes ELSE {""}
+ArgChoice(t, f) == IF HasArgs(t, f) /\ nargs < MaxArgs /\ Decor < MaxDecor THEN ArgCodes ELSE {""}
 
 AddField ==
   /\ Len(doc) < MaxNodes
-  /\ \E f \in GenFields(Top.type) \cup {"__typename"}, al \in AliasChoice, dr \in {x \in FieldDirs : ndir + x[2] <= MaxDirs} :
+  /\ \E f \in GenFields(Top.type) \cup {"__typename"}, al \in AliasChoice, dr \in DirChoice(FieldDirs) :
      \E ar \in ArgChoice(Top.type, f) :
+       /\ (IF al = "" THEN 0 ELSE 1) + (IF dr[2] = 0 THEN 0 ELSE 1) + (IF ar = "" THEN 0 ELSE 1) + Decor <= MaxDecor
        LET t == IF f = "__typename" THEN "String" ELSE Named(TS.types[Top.type].fields[f].ty) IN
        /\ doc' = Append(doc, Node("field", f, al, "", dr[1], ar, 0))
        /\ open' = IF Composite(t) THEN Append(Bump, [type |-> t, count |-> 0, node |-> Len(doc) + 1]) ELSE Bump
-       /\ ndir' = ndir + dr[2]
+       /\ ndir' = IF dr[2] = 0 THEN ndir ELSE ndir + 1
        /\ nalias' = IF al = "" THEN nalias ELSE nalias + 1
        /\ nargs' = IF ar = "" THEN nargs ELSE nargs + 1
 
 AddFragment ==
   /\ Len(doc) < MaxNodes - 1       \* a fragment needs at least one selection inside
-  /\ \E k \in {"inline", "spread"}, c \in Conds(Top.type) \cup {""}, dr \in {x \in FragDirs : ndir + x[2] <= MaxDirs} :
+  /\ \E k \in {"inline", "spread"}, c \in Conds(Top.type) \cup {""}, dr \in DirChoice(FragDirs) :
        /\ (k = "spread" => c # "")
        /\ doc' = Append(doc, Node(k, "", "", c, dr[1], "", 0))
        /\ open' = Append(Bump, [type |-> IF c = "" THEN Top.type ELSE c, count |-> 0, node |-> Len(doc) + 1])
-       /\ ndir' = ndir + dr[2]
+       /\ ndir' = IF dr[2] = 0 THEN ndir ELSE ndir + 1
        /\ UNCHANGED <<nalias, nargs>>
 
 \* spread an already completed named fragment once more (it cannot contain the current position: no cycle)
